@@ -22,7 +22,7 @@ structure SDesc where
   deriving DecidableEq, Repr
 
 inductive SErr where
-  | alreadyExists | notFound | missingRef | duplicateName | verify
+  | alreadyExists | notFound | missingRef | duplicateName | verify | overwrite
   deriving DecidableEq, Repr
 
 structure StoreCfg where
@@ -98,6 +98,9 @@ def fileAt (st : FileSt) (p : Nat) : Option FileBytes := (st.files.find? (·.1 =
 def writeFile (st : FileSt) (p : Nat) (b : FileBytes) : FileSt :=
   { st with files := (p, b) :: st.files.filter (·.1 ≠ p) }
 
+def removeFile (st : FileSt) (p : Nat) : FileSt :=
+  { st with files := st.files.filter (·.1 ≠ p) }
+
 /-- `Store.Exists`. -/
 def exists_ (c : StoreCfg) (st : FileSt) (d : SDesc) : Bool :=
   match d.name with
@@ -122,16 +125,22 @@ def fetch (c : StoreCfg) (st : FileSt) (d : SDesc) : Except SErr FileBytes :=
 /-- `push` for a named descriptor (`file.go` `push` + `pushFile` + `saveFile`):
     `recordEarly` is the order of the source — `false`: `digestToPath` is written after the
     verified copy (the code as it is); `true` models recording it before. -/
-def pushNamed (c : StoreCfg) (recordEarly : Bool) (st : FileSt) (n : Node) (nm : Nat) (good : Bool) :
+def pushNamed (c : StoreCfg) (recordEarly : Bool) (st : FileSt) (n : Node) (nm : Nat) (good : Bool)
+    (noOverwrite : Bool := false) (removeOnFail : Bool := false) :
     FileSt × Except SErr Unit :=
   if nm ∈ st.names then (st, .error .duplicateName)
+  -- `DisableOverwrite`: a file that is already on disk under the name is not touched
+  else if noOverwrite ∧ (st.fileAt nm).isSome then (st, .error .overwrite)
   else
     let early := if recordEarly then { st with d2p := (c.dig n, nm) :: st.d2p.filter (·.1 ≠ c.dig n) } else st
     if good then
       let s1 := early.writeFile nm (.ok (c.dig n))
       ({ s1 with d2p := (c.dig n, nm) :: s1.d2p.filter (·.1 ≠ c.dig n), names := nm :: s1.names }, .ok ())
+    else if removeOnFail then
+      -- `pushFile` removes what it wrote when the verified copy fails (the code as it is)
+      (early.removeFile nm, .error .verify)
     else
-      -- the file was created (truncated) and holds whatever was copied before the failure
+      -- before that repair: the file was created (truncated) and holds whatever was copied
       (early.writeFile nm .garbage, .error .verify)
 
 /-- `restoreDuplicates` (`ForceCAS = false`): every named successor of a just-pushed
@@ -148,7 +157,8 @@ def restore (c : StoreCfg) (st : FileSt) (m : Node) : FileSt :=
         | _ => s) st
 
 /-- `Store.Push`. -/
-def push (c : StoreCfg) (recordEarly : Bool) (st : FileSt) (d : SDesc) (good : Bool) (forceCAS : Bool := false) :
+def push (c : StoreCfg) (recordEarly : Bool) (st : FileSt) (d : SDesc) (good : Bool) (forceCAS : Bool := false)
+    (noOverwrite : Bool := false) (removeOnFail : Bool := false) :
     FileSt × Except SErr Unit :=
   let r : FileSt × Except SErr Unit :=
     match d.name with
@@ -156,7 +166,7 @@ def push (c : StoreCfg) (recordEarly : Bool) (st : FileSt) (d : SDesc) (good : B
       if d.node ∈ st.fallback then (st, .error .alreadyExists)
       else if !good then (st, .error .verify)
       else ({ st with fallback := d.node :: st.fallback }, .ok ())
-    | some nm => pushNamed c recordEarly st d.node nm good
+    | some nm => pushNamed c recordEarly st d.node nm good noOverwrite removeOnFail
   match r with
   | (s, .error e) => (s, .error e)
   | (s, .ok ()) =>
